@@ -71,6 +71,7 @@ type world struct {
 	stuck  map[int]bool
 	errInj error
 	nsteps int
+	dir    *directed // non-nil: outcomes and hook bodies follow a model trace (directed.go)
 }
 
 func newWorld() *world {
@@ -171,6 +172,9 @@ func (n *fakeNode) TransmittedMessages() []canrunner.TransmittedMessage { return
 func (n *fakeNode) ReceivedMessage(id uint32) (canrunner.ReceivedMessage, bool) {
 	t := n.w.point("LK")
 	m, ok := n.w.rmsgs[id]
+	if n.w.dir != nil {
+		m, ok = n.w.rmsgs[0x10], n.w.dir.pop(true)
+	}
 	n.w.emit(fmt.Sprintf("LK.%x.%s", t, b01(ok)))
 	n.w.stepDone()
 	if !ok {
@@ -216,7 +220,9 @@ type fakeRx struct {
 func (r *fakeRx) Receive() bool {
 	t := r.w.point("RV")
 	it := rxItem{end: true}
-	if r.pos < len(r.script) {
+	if r.w.dir != nil {
+		it = rxItem{id: 0x10, end: !r.w.dir.pop(false)}
+	} else if r.pos < len(r.script) {
 		it = r.script[r.pos]
 		r.pos++
 	}
@@ -245,6 +251,9 @@ func (r *fakeRx) Frame() can.Frame {
 
 func (r *fakeRx) Err() error {
 	t := r.w.point("RE")
+	if r.w.dir != nil {
+		r.cur.endErr = !r.w.dir.pop(true)
+	}
 	r.w.emit(fmt.Sprintf("RE.%x.%s", t, b01(!r.cur.endErr)))
 	r.w.stepDone()
 	if r.cur.endErr {
@@ -262,7 +271,35 @@ func (w *world) hook(n *fakeNode, fail func() bool, lock func() bool, mut int) f
 	return func(context.Context) error {
 		t := w.point("HC")
 		w.emit(fmt.Sprintf("HC.%x.%s", t, w.held(t)))
+		var plan []dtok
+		if w.dir != nil {
+			plan = w.dir.hookPlan(t)
+		}
 		w.stepDone()
+		if w.dir != nil {
+			// the hook body performs exactly the Lock / Mutate / Unlock events the model trace lists
+			for _, a := range plan {
+				switch a.kind {
+				case "L":
+					n.Lock()
+				case "U":
+					n.Unlock()
+				case "M":
+					w.point("M")
+					w.msgs[a.m].content = a.v
+					w.emit(fmt.Sprintf("M.%x.%x.%x.%s", t, a.m, a.v, w.held(t)))
+					w.stepDone()
+				}
+			}
+			w.point("HR")
+			f := !w.dir.pop(true)
+			w.emit(fmt.Sprintf("HR.%x.%s", t, b01(!f)))
+			w.stepDone()
+			if f {
+				return w.errInj
+			}
+			return nil
+		}
 		if lock() {
 			n.Lock()
 			if mut != 0 {
@@ -295,9 +332,11 @@ type fakeRxMsg struct {
 	mut  int
 }
 
-func (m *fakeRxMsg) access(what string) {
+func (m *fakeRxMsg) access(what string) { m.accessf(konst(what)) }
+
+func (m *fakeRxMsg) accessf(what func() string) {
 	t := m.w.point("A")
-	m.w.emit(fmt.Sprintf("A.%x.%s.%s", t, what, m.w.held(t)))
+	m.w.emit(fmt.Sprintf("A.%x.%s.%s", t, what(), m.w.held(t)))
 	m.w.stepDone()
 }
 
@@ -309,7 +348,12 @@ func (m *fakeRxMsg) SetReceiveTime(time.Time) { m.access("time") }
 func (m *fakeRxMsg) UnmarshalFrame(f can.Frame) error {
 	m.last = f
 	fail := f.Data[0]&1 != 0
-	m.access("unm" + b01(!fail))
+	m.accessf(func() string {
+		if m.w.dir != nil {
+			fail = !m.w.dir.pop(true)
+		}
+		return "unm" + b01(!fail)
+	})
 	if fail {
 		return m.w.errInj
 	}
@@ -409,6 +453,9 @@ func (x *fakeTx) TransmitFrame(_ context.Context, f can.Frame) error {
 	t := x.w.point("X")
 	x.m.txN++
 	fail := x.m.txFail[x.m.txN]
+	if x.w.dir != nil {
+		fail = !x.w.dir.pop(true)
+	}
 	v := int(f.Data[0]) | int(f.Data[1])<<8
 	x.w.emit(fmt.Sprintf("X.%x.%x.%s", t, v, b01(!fail)))
 	x.m.lastFlag = false
